@@ -153,7 +153,8 @@ def parse_state(text):
         p.ws()
         if p.i >= len(p.s):
             return out
-        p.eat("/\\")
+        if p.peek("/\\"):       # a specification with a single variable prints no conjunction bullet
+            p.eat("/\\")
         p.ws()
         j = p.i
         while p.s[j].isalnum() or p.s[j] == "_":
